@@ -75,7 +75,12 @@ def _task(args):
             for line in raw:
                 if r.w is None or r.v.done:
                     break
+                if isinstance(line, tuple):
+                    # (command line, answers to its continuation requests)
+                    line, answers = line
+                    r.answers = list(answers)
                 res = r.run(line, label='script', keep=True)
+                r.answers = []
                 n += 1
                 outs.add(_digest(res['out']))
                 _classify(res, line, 'script', out)
@@ -204,7 +209,9 @@ SIEVE_ARGS = [b'', b'"a"', b'"a" "b"', b'{1+}\r\na', b'{1}', b'"a" {3+}\r\nabc',
               b'"a" {5+}\r\nkeep;', b'"PLAIN" "!!!"', b'"PLAIN" ""',
               b'"PLAIN" {1+}\r\n*', b'"a" "a" "a"', b'"" ""', b'a b',
               b'"a" {3+}\r\n\x00\xff\r', b'NIL', b'"PLAIN"', b'"BOGUS" "x"',
-              b'{0+}\r\n', b'"a"  "b"', b'"a" {12+}\r\nif true { }}']
+              b'{0+}\r\n', b'"a"  "b"', b'"a" {12+}\r\nif true { }}',
+              # SASL responses that are not UTF-8 / not base64
+              b'"PLAIN" "/wD+AHg="', b'"PLAIN" "a"', b'"LOGIN" "/w=="']
 
 
 def build_tasks(tier):
@@ -290,6 +297,11 @@ def build_tasks(tier):
     # the C07 corpora (names, header values, MIME shapes, keywords)
     from . import c07
     for fam, scripts in c07.families(tier):
+        if fam == 'auth':
+            # exchanges before login
+            for ch in chunks(scripts, 40):
+                T.append(('script', 'nonauth', 'imap', ch))
+            continue
         for ch in chunks(scripts, 40):
             T.append(('script', 'selected', 'imap', ch))
         # names, raw names and keywords reach the filesystem on maildir
